@@ -39,6 +39,7 @@ def glueStep (A : Arith) (u : Unit) (line : String) : Unit × String :=
       | "106" => Glue.zip3 Glue.clampTwo (pl lb) (pl ub) (pl x)
       | _ => []
     (u, WrapDrv.hexList r)
+  | ["premax", vpre] => (u, WrapDrv.hexList (Glue.preMax (pl vpre)))
   | _ => (u, "bad-op")
 
 /-- S-inc stream: incumbent rules.  `reset`; `s <f> <feas> <infeas>` (SLSQP event); `i <f> <feas> <penalty> <gpenalty>` (ISRES
